@@ -83,6 +83,44 @@ Theorem cleanup_exactly_once_at_quiescence :
 Proof. exact cleanup_exactly_once_lemma. Qed.
 Print Assumptions cleanup_exactly_once_at_quiescence.
 
+From Thunder Require Import Reactive.ProofsLink.
+
+(** The two halves of an edge agree, in every reachable state: a dependant listed in [out] has the dependency
+    in its [in] list (addOut writes both under both locks, graph.go:144-166), and a dependant that has been
+    released is on its way out of the [out] set — the goroutine that released it still has the dependency in
+    the list of in-edges it walks (graph.go:124-135). *)
+Theorem edge_halves_agree :
+  forall k progs s n m, reachable (init k progs) s -> In m (n_out (getN s n)) ->
+  In n (n_ins (getN s m)) /\
+  (n_rel (getN s m) = true -> exists froms, In (FRelDeps m froms) (all_frames s) /\ In n froms).
+Proof.
+  intros k progs s n m R Hin. destruct (reachable_link k progs s R) as [A B].
+  split; [exact (A n m Hin) | exact (B n m Hin)].
+Qed.
+Print Assumptions edge_halves_agree.
+
+(** ... so at quiescence the dependants of a node are exactly computations that registered it and have not been
+    released. *)
+Theorem dependants_are_unreleased_registrants_at_quiescence :
+  forall k progs s n m, reachable (init k progs) s -> quiescent s ->
+  In m (n_out (getN s n)) -> In n (n_ins (getN s m)) /\ n_rel (getN s m) = false.
+Proof. exact quiescent_out_registered. Qed.
+Print Assumptions dependants_are_unreleased_registrants_at_quiescence.
+
+(** "... has its cleanup callback run exactly once after the last computation depending on it is superseded or
+    stopped", with the premise about the computations rather than about the reference count: at quiescence a
+    resource that received an addOut, and every registrant of which (every node m that has it in m.in: the
+    computations whose AddDependency, or whose adoption of a cached child, linked them below it) has been
+    released — superseded, stopped or failed —, has no dependant left, is released, and its callback ran exactly
+    once.  (With [release_decided_only_without_dependants] and [cleanup_only_after_release]: not before.) *)
+Theorem cleanup_exactly_once_after_last_registrant_released :
+  forall k progs s n, reachable (init k progs) s -> quiescent s ->
+  n_had (getN s n) = true -> n_hrel (getN s n) <> None ->
+  (forall m, In n (n_ins (getN s m)) -> n_rel (getN s m) = true) ->
+  n_out (getN s n) = [] /\ n_rel (getN s n) = true /\ n_cln (getN s n) = 1.
+Proof. exact cleanup_after_last_registrant_lemma. Qed.
+Print Assumptions cleanup_exactly_once_after_last_registrant_released.
+
 From Thunder Require Import Reactive.Measure Reactive.ProofsCacheKeys.
 
 (** The cache of a rerunner (cache.computations, rerunner.go:72-76) holds at most one memoised computation per
@@ -126,3 +164,17 @@ Proof. vm_compute. repeat split; discriminate. Qed.
 
 Example ex_cache_entry : map fst (r_cache (getr ex_s2 0)) = [0] /\ prog_keyl ex_prog = [0].
 Proof. vm_compute. split; reflexivity. Qed.
+
+(** non-vacuity of the registrant form: in [ex_s2] the superseded resource (node 0) was registered by the first
+    run's cached child (node 2) and by the first root computation (node 1); both have been released; the current
+    resource (node 3) has the live cached child and root computation as dependants, both unreleased. *)
+Example ex_registrants :
+  (forall m, In m [1; 2] -> In 0 (n_ins (getN ex_s2 m)) /\ n_rel (getN ex_s2 m) = true) /\
+  n_out (getN ex_s2 (slot_res ex_s2 0)) <> [] /\
+  (forall m, In m (n_out (getN ex_s2 (slot_res ex_s2 0))) -> n_rel (getN ex_s2 m) = false).
+Proof.
+  split; [|split].
+  - intros m [<-|[<-|[]]]; vm_compute; split; auto.
+  - vm_compute. discriminate.
+  - vm_compute. intros m H. repeat (destruct H as [<-|H]; [reflexivity|]). contradiction.
+Qed.
